@@ -74,6 +74,36 @@ def known_finding(ctx, forest):
                        "spec": fw.hexs(spec), "documented_defect": fw.hexs(documented)})
 
 
+def prune_across_devices(ctx, forest):
+    """-prune on a directory that -xdev keeps find out of (here: a link, followed under -L, into another file system) cuts nothing
+    else: its siblings and their subtrees are still visited.  Needs a second file system (/dev/shm); skipped where there is none."""
+    other = "/dev/shm"
+    try:
+        if not os.path.isdir(other) or os.stat(other).st_dev == os.stat(forest.dir).st_dev:
+            ctx.notes.append("prune_across_devices: no second file system at /dev/shm, scenario skipped")
+            return
+    except OSError:
+        return
+    d = os.path.join(forest.dir, b"xd")
+    os.makedirs(os.path.join(d, b"a"))
+    os.makedirs(os.path.join(d, b"c", b"d"))
+    for f in (b"a/f", b"c/d/g", b"z"):
+        open(os.path.join(d, f), "wb").close()
+    os.symlink(other, os.path.join(d, b"b"))
+    for pruned, want in ((b"b", [b"xd", b"xd/a", b"xd/a/f", b"xd/c", b"xd/c/d", b"xd/c/d/g", b"xd/z"]),
+                         (b"c", [b"xd", b"xd/a", b"xd/a/f", b"xd/b", b"xd/z"])):
+        args = ["-L", "xd", "-xdev", "-sorted", "-name", pruned.decode(), "-prune", "-o", "-print0"]
+        line = "find - %s %s" % (fw.hexs(forest.dir), xc.hexlist([a.encode() for a in args]))
+        code, out, err = wc.decode_find(xc.run_impl([line])[0])
+        got = out.split(b"\0")[:-1]
+        ctx.count(("prune-across-devices", pruned), True, "prune-across-devices")
+        if got != want or code != 0:
+            ctx.violation("find %s: visited %s (exit %s); exactly the pruned directory's descendants are left out: %s"
+                          % (" ".join(args), [x.decode() for x in got], code, [x.decode() for x in want]),
+                          {"property": "C03", "kind": "prune-across-devices", "find_args": args, "visited": [x.decode() for x in got],
+                           "expected": [x.decode() for x in want], "exit": str(code)})
+
+
 def delete_implies_depth(ctx, forest):
     """-delete implies -depth: the visit order printed before the removal is post-order"""
     rng = ctx.rng
@@ -107,6 +137,7 @@ def run(ctx):
         c02.report(ctx, forest, bad, "C03")
         known_finding(ctx, forest)
         delete_implies_depth(ctx, forest)
+        prune_across_devices(ctx, forest)
     finally:
         forest.close()
 
